@@ -155,7 +155,7 @@ NP_OPS = dict(
     divide=_np(operator.truediv), pow=_np(operator.pow), logical_and=_np(numpy.logical_and), logical_or=_np(numpy.logical_or), logical_not=_np(numpy.logical_not),
     maximum=_np(max), minimum=_np(min), atan2=_np(numpy.arctan2), copysign=_np(numpy.copysign), sign=_np(numpy.sign), hypot=_np(numpy.hypot), square=_np(numpy.square),
     real=_np(lambda z: z.real), imag=_np(lambda z: z.imag), conjugate=_np(lambda z: z.conjugate()), complex=_np_complex,
-    select=_np(lambda c, a, b: numpy.where(c, a, b)[()]), lt=_np(numpy.less), le=_np(numpy.less_equal), gt=_np(numpy.greater), ge=_np(numpy.greater_equal),
+    select=_np(lambda c, a, b: numpy.where(c, a, b)), lt=_np(numpy.less), le=_np(numpy.less_equal), gt=_np(numpy.greater), ge=_np(numpy.greater_equal),
     eq=_np(numpy.equal), ne=_np(numpy.not_equal), is_finite=_np(numpy.isfinite), floor=_np(numpy.floor), ceil=_np(numpy.ceil), truncate=_np(numpy.trunc),
     upcast=_np_upcast, downcast=_np_downcast, exp2=_np(numpy.exp2), nextafter=_np(numpy.nextafter),
 )
@@ -171,7 +171,12 @@ def eval_npscalar(graph, args):
     with warnings.catch_warnings():
         warnings.simplefilter("ignore")
         with numpy.errstate(all="ignore"):
-            return _topo_eval(graph, args, const, NP_OPS)
+            # numpy.where returns a 0-d array and the emitted code uses it as it is: `where(..) ** x` is the power ufunc's loop, `scalar ** x` is the scalar
+            # math's pow, and the two differ in the last bit for some arguments - the reference keeps the array so that every operator dispatches alike
+            r = _topo_eval(graph, args, const, NP_OPS)
+            if isinstance(r, (list, tuple)):
+                return type(r)(v[()] if isinstance(v, numpy.ndarray) and v.shape == () else v for v in r)
+            return r[()] if isinstance(r, numpy.ndarray) and r.shape == () else r
 
 
 # ------------------------------------------------------------------------------------------------ C++: IEEE ops + glibc libm
